@@ -220,6 +220,11 @@ type Opts struct {
 	// user code too). What Invoke then returns is not covered by a property;
 	// the state left behind is (C02: what completed stays completed).
 	CBPanic bool `json:"cbpanic,omitempty"`
+	// CBInvoke: the first time the callback is called with a nil Error it
+	// calls Invoke on scope S for a function with parameters P (a consumer of
+	// the function's own keys): the function has completed by then, so the
+	// consumer must get what any later consumer gets
+	CBInvoke *Reenter `json:"cbinvoke,omitempty"`
 	// nil / empty arguments to option constructors (accepted no-ops):
 	// FillProvideInfo(nil) etc., WithProviderCallback(nil) etc., dig.As()
 	InfoNil bool   `json:"infonil,omitempty"`
@@ -373,6 +378,13 @@ func (o *Opts) Short() string {
 			parts = append(parts, "Callback!panics")
 		} else {
 			parts = append(parts, "Callback")
+		}
+		if o.CBInvoke != nil {
+			var ps []string
+			for _, p := range o.CBInvoke.P {
+				ps = append(ps, p.Short())
+			}
+			parts = append(parts, fmt.Sprintf("{callback: invoke@%d(%s)}", o.CBInvoke.S, strings.Join(ps, ",")))
 		}
 	}
 	if o.InfoNil {
